@@ -57,8 +57,13 @@ def run(R, tier, seed, driver_ok):
         d = int(rng.randint(2, 6))
         X, y = zoo.blobs(rng, d)
         idx, yy = zoo.pairs_from(X, y, rng, n=int(rng.randint(5, 25)))
+        if rep % 6 == 5:
+            keep = rng.choice(len(yy), size=int(rng.randint(1, 4)), replace=False)     # a pair set of one to three pairs
+            idx, yy = idx[keep], yy[keep]
         pairs = X[idx]
         prior_kind = ['identity', 'covariance', 'random', 'array'][rep % 4]
+        if len(yy) <= 3 and prior_kind == 'covariance':
+            prior_kind = 'identity'          # (the covariance of so few points is singular: a documented rejection)
         B = rng.randn(d, d)
         prior = B.dot(B.T) + 0.5 * np.eye(d) if prior_kind == 'array' else prior_kind
         lam = float(rng.choice([0.003, 0.01, 0.1]))
